@@ -1,13 +1,28 @@
 #!/bin/sh
 # ./run.sh <Cxx> <quick|thorough>      run one check against /repo's current working tree (hooks on)
 # ./run.sh <Cxx> --replay <path>       re-run the case recorded in a replay file
+# VERIF_REPO=<dir> (optional) checks a scratch copy of the repository instead of /repo (used when
+# validating the monitors against seeded defects); VERIF_OUT=<dir> redirects evidence/ and replays/.
 cd "$(dirname "$0")" || exit 3
 export GOFLAGS=-mod=mod GOPROXY=off GOSUMDB=off GOTOOLCHAIN=local
 export VERIF_DIR="$(pwd)"
-cp /repo/go.sum go.sum 2>/dev/null
-mkdir -p bin evidence replays
-if [ "$1" = "C16" ]; then
-  go build -race -tags verif -o bin/vcheck.race ./cmd/vcheck || { echo "build failed" >&2; exit 3; }
+REPO="${VERIF_REPO:-/repo}"
+BIN=bin
+MODFLAG=""
+if [ "$REPO" != "/repo" ]; then
+  TAG=$(echo "$REPO" | tr -c 'A-Za-z0-9' '_')
+  BIN="bin-alt/$TAG"
+  mkdir -p "$BIN"
+  sed "s|=> /repo|=> $REPO|" go.mod > "$BIN/go.mod"
+  cp "$REPO/go.sum" "$BIN/go.sum" 2>/dev/null
+  MODFLAG="-modfile=$BIN/go.mod"
+else
+  cp /repo/go.sum go.sum 2>/dev/null
 fi
-go build -tags verif -o bin/vcheck ./cmd/vcheck || { echo "build failed" >&2; exit 3; }
-exec bin/vcheck "$@"
+export VERIF_REPO="$REPO"
+mkdir -p "$BIN" evidence replays
+if [ "$1" = "C16" ]; then
+  go build $MODFLAG -race -tags verif -o "$BIN/vcheck.race" ./cmd/vcheck || { echo "build failed" >&2; exit 3; }
+fi
+go build $MODFLAG -tags verif -o "$BIN/vcheck" ./cmd/vcheck || { echo "build failed" >&2; exit 3; }
+exec "$BIN/vcheck" "$@"
